@@ -146,6 +146,12 @@ type formatCtx struct {
 	scope   *types.Scope
 }
 
+// declared reports whether name is declared in the current scope or an enclosing one.
+func (ctx *formatCtx) declared(name string) bool {
+	_, o := ctx.scope.LookupParent(name, token.NoPos)
+	return o != nil
+}
+
 func (ctx *formatCtx) insert(name string) {
 	o := types.NewParam(token.NoPos, nil, name, types.Typ[types.UntypedNil])
 	ctx.scope.Insert(o)
@@ -205,6 +211,9 @@ func formatFile(file *ast.File) {
 		case *ast.FuncDecl:
 			// delay the process, because package level vars need to be processed first.
 			funcs = append(funcs, v)
+			if v.Recv == nil && v.Name != nil {
+				ctx.insert(v.Name.Name)
+			}
 		case *ast.GenDecl:
 			switch v.Tok {
 			case token.IMPORT:
